@@ -107,7 +107,18 @@ def _replay_chunk(args):
                 r = max(abs(float(mod(itp.point(k))) - float(table[k])) for k in range(npt))
                 sc = float(np.max(np.abs(table), initial=1.0))
                 rel.append((name, r / sc))
-            tol = 1e-5 if ill else 500.0 * EPS * max(n, npt) * condmax[0]
+            if ill:
+                # Once a near-duplicate point has made the system numerically singular (cond > 1e13)
+                # "eps times conditioning" allows any error, and the error persists in the recursion
+                # until the models are rebuilt.  What can still be decided: all models went through the
+                # same solves, so their relative residuals are comparable; a model that was NOT updated
+                # (e.g. skipped by a short-circuit) stands out by many orders of magnitude.
+                rels = [rr for _, rr in rel]
+                if len(rels) >= 2 and max(rels) > 1e8 * max(min(rels), 1e-9):
+                    name = max(rel, key=lambda t: t[1])[0]
+                    return ("C12.resid." + after, f"model {name}: relative residual {max(rels):.3e} while another model has {min(rels):.3e} (cond {cond:.2e}) after action {idx}: not all models were updated")
+                return None
+            tol = 500.0 * EPS * max(n, npt) * condmax[0]
             for name, rr in rel:
                 worst = max(worst, rr / tol)
                 if not (rr <= tol):
@@ -136,6 +147,7 @@ def _replay_chunk(args):
                     models.shift_x_base(np.copy(coords[h["from"]]), options)
                 elif h["a"] == "reset":
                     models.reset_models()
+                    condmax[0] = 1.0          # the models are rebuilt from the recorded values
             except np.linalg.LinAlgError:
                 break          # an ill-defined system may be reported; the behaviour ends here
             except Exception as ex:
@@ -192,6 +204,6 @@ def check(pid, tier):
     cov["samples"] = cov["samples"] + rp["samples"]
     rc = v.finish()
     write_evidence("C12", tier, "model_checking", cov, time.time() - t0, len(v.violations),
-                   checks.ASSUME_T + ["interpolation residuals are measured by the harness; tolerance 500 eps max(n,npt) cond(W) relative to the largest recorded value; for near-duplicate points (cond > 1e13) a fixed relative tolerance 1e-5 is used in the replay and the clause is skipped in recorded runs",
+                   checks.ASSUME_T + ["interpolation residuals are measured by the harness; tolerance 500 eps max(n,npt) cond(W) (largest conditioning since the last rebuild) relative to the largest recorded value; once a near-duplicate point has made the system numerically singular (cond > 1e13) only the comparability of the residuals of the different models is decided in the replay (a model that was not updated stands out by > 8 orders of magnitude) and the clause is skipped in recorded runs",
                                       "behaviours come from TLC -simulate on InterpBook.tla (finite sample of the sequences of length <= 60)"])
     return rc
